@@ -67,6 +67,12 @@ def cases(tier):
             for route in ('cls', 'proc', 'cfg', 'potable'):
                 out.append(dict(m=m, route=route, target='DL_POLY_EAM_fs' if fs else 'DL_POLY_EAM'))
     for fs in (False, True):
+        for m in EK.api_option_models(fs):
+            if 'comments' in m:
+                continue
+            for route in (('proc',) if 'title' in m else ('cls', 'proc')):
+                out.append(dict(m=m, route=route, target='DL_POLY_EAM_fs' if fs else 'DL_POLY_EAM'))
+    for fs in (False, True):
         for i, m in enumerate(EK.label_models(fs, tier)):
             for route in (('cls', 'proc', 'cfg', 'potable') if tier != 'quick' else (('cls', 'proc')[i % 2], ('cfg', 'potable')[(i // 2) % 2])):
                 out.append(dict(m=m, route=route, target='DL_POLY_EAM_fs' if fs else 'DL_POLY_EAM'))
